@@ -53,7 +53,8 @@ Record obs := mkObs {
   o_rows : list crow;
   o_find : list (N * N * N * TimespanGen.ts * lookup_result);         (* collection, type, data ID, probe, result *)
   o_path : list (list N * N * N * TimespanGen.ts * lookup_result);    (* search path, type, data ID, probe, result *)
-  o_xpath : list (list N * N * N * TimespanGen.ts * lookup_result)    (* search path with CHAINED / RUN collections, ... *)
+  o_xpath : list (list N * N * N * TimespanGen.ts * lookup_result);   (* search path with CHAINED / RUN collections, ... *)
+  o_all : list (N * N * N * TimespanGen.ts * list N)                  (* collection, type, data ID, probe, dataset of EVERY overlapping row *)
 }.
 
 Definition find_ok (s : state) (f : N * N * N * TimespanGen.ts * lookup_result) : bool :=
@@ -61,11 +62,26 @@ Definition find_ok (s : state) (f : N * N * N * TimespanGen.ts * lookup_result) 
 Definition path_ok (s : state) (f : list N * N * N * TimespanGen.ts * lookup_result) : bool :=
   let '(p, ty, d, q, r) := f in res_eqb (lookup_path s p ty d q) r.
 
+(* multiset equality of dataset-id lists *)
+Fixpoint remove_oneN (x : N) (l : list N) : option (list N) :=
+  match l with
+  | [] => None
+  | y :: r => if x =? y then Some r else match remove_oneN x r with Some r' => Some (y :: r') | None => None end
+  end.
+Fixpoint sameN (a b : list N) : bool :=
+  match a with
+  | [] => match b with [] => true | _ => false end
+  | x :: r => match remove_oneN x b with Some b' => sameN r b' | None => false end
+  end.
+(* the new query system without find-first, `<type>.timespan OVERLAPS :ts`: one result per overlapping row *)
+Definition all_ok (s : state) (f : N * N * N * TimespanGen.ts * list N) : bool :=
+  let '(c, ty, d, q, l) := f in sameN (map r_ds (overlapping s c ty d q)) l.
+
 Definition xpath_ok (s : state) (f : list N * N * N * TimespanGen.ts * lookup_result) : bool :=
   let '(p, ty, d, q, r) := f in
   match xlookup 6 std_env s p ty d q with Some r' => res_eqb r' r | None => false end.
 
-(* 0 = agrees; otherwise 10 * (1-based step) + component (1 outcome, 2 rows, 3 find, 4 path, 5 chained/run path) *)
+(* 0 = agrees; otherwise 10 * (1-based step) + component (1 outcome, 2 rows, 3 find, 4 path, 5 chained/run path, 6 all overlapping rows) *)
 Fixpoint first_bad (chk : bool) (s : state) (i : N) (l : list (op * obs)) : N :=
   match l with
   | [] => 0
@@ -76,6 +92,7 @@ Fixpoint first_bad (chk : bool) (s : state) (i : N) (l : list (op * obs)) : N :=
     else if negb (forallb (find_ok s') (o_find ob)) then 10 * i + 3
     else if negb (forallb (path_ok s') (o_path ob)) then 10 * i + 4
     else if negb (forallb (xpath_ok s') (o_xpath ob)) then 10 * i + 5
+    else if negb (forallb (all_ok s') (o_all ob)) then 10 * i + 6
     else first_bad chk s' (N.succ i) rest
   end.
 Definition chk_history (l : list (op * obs)) : bool := first_bad true std_init 1 l =? 0.
